@@ -54,6 +54,8 @@ def gen_args(rng):
 
 
 def gen_script(rng):
+    if rng.random() < 0.06:
+        return rng.choice(["", "   ", "\n", "  \n\n", "-- only a comment\n", "USE db;\n", "SELECT 1;\n"])      # nothing to parse at all
     if rng.random() < 0.3:
         from vf.gen import sources
         text = sources.any_script(rng)[1]
